@@ -26,17 +26,26 @@ impl<T> AtomicOption<T> {
     }
 
     #[inline]
+    #[cfg_attr(may_verif, track_caller)]
     pub fn store(&self, t: T) {
+        #[cfg(may_verif)]
+        crate::verif::point(crate::verif::Op::OptStore, self as *const _ as usize);
         self.inner.store(Some(t));
     }
 
     #[inline]
+    #[cfg_attr(may_verif, track_caller)]
     pub fn take(&self) -> Option<T> {
+        #[cfg(may_verif)]
+        crate::verif::point(crate::verif::Op::OptTake, self as *const _ as usize);
         self.inner.take()
     }
 
     #[inline]
+    #[cfg_attr(may_verif, track_caller)]
     pub fn clear(&self) {
+        #[cfg(may_verif)]
+        crate::verif::point(crate::verif::Op::OptClear, self as *const _ as usize);
         self.inner.store(None)
     }
 }
